@@ -47,7 +47,14 @@ struct Sk {
     /// temporaries acquired in the statement being processed
     temps: Vec<usize>,
     syms: BTreeSet<String>,
+    /// labels of the enclosing loops (innermost last; `None` = unlabelled)
+    loops: Vec<Option<String>>,
 }
+
+/// Effect names that are part of the vocabulary even when no listed function contains them today, so that
+/// Lean definitions computing facts from skeletons can name them for the current and for a repaired source:
+/// `break_outer` = a labelled `break` leaving a loop that is not the innermost one; `catch_unwind`.
+const ALWAYS_SYMS: &[&str] = &["break_outer", "catch_unwind"];
 
 fn last_seg(p: &syn::Path) -> String { p.segments.last().map(|s| s.ident.to_string()).unwrap_or_default() }
 
@@ -208,13 +215,21 @@ impl Sk {
             }
             Expr::Block(b) => self.block(&b.block),
             Expr::Unsafe(u) => self.block(&u.block),
-            Expr::Loop(l) => { let t = self.sub(|s| s.block(&l.body)); self.toks.push(Tok::Loop(t)); }
-            Expr::While(w) => { let t = self.sub(|s| { s.expr(&w.cond); s.block(&w.body) }); self.toks.push(Tok::Loop(t)); }
-            Expr::ForLoop(f) => { self.expr(&f.expr); let t = self.sub(|s| s.block(&f.body)); self.toks.push(Tok::Loop(t)); }
+            Expr::Loop(l) => { self.loops.push(l.label.as_ref().map(|x| x.name.ident.to_string())); let t = self.sub(|s| s.block(&l.body)); self.loops.pop(); self.toks.push(Tok::Loop(t)); }
+            Expr::While(w) => { self.loops.push(w.label.as_ref().map(|x| x.name.ident.to_string())); let t = self.sub(|s| { s.expr(&w.cond); s.block(&w.body) }); self.loops.pop(); self.toks.push(Tok::Loop(t)); }
+            Expr::ForLoop(f) => { self.expr(&f.expr); self.loops.push(f.label.as_ref().map(|x| x.name.ident.to_string())); let t = self.sub(|s| s.block(&f.body)); self.loops.pop(); self.toks.push(Tok::Loop(t)); }
             Expr::Closure(c) => { let t = self.sub(|s| s.expr(&c.body)); if !t.is_empty() { self.toks.push(Tok::Closure(t)); } }
             Expr::Try(t) => { self.expr(&t.expr); self.toks.push(Tok::Try); }
             Expr::Return(r) => { if let Some(e) = &r.expr { self.expr(e); } self.toks.push(Tok::Ret); }
-            Expr::Break(b) => { if let Some(e) = &b.expr { self.expr(e); } self.toks.push(Tok::Brk); }
+            Expr::Break(b) => {
+                if let Some(e) = &b.expr { self.expr(e); }
+                // `break 'l` where `'l` is not the innermost enclosing loop leaves several loops at once
+                if let Some(l) = &b.label {
+                    let name = l.ident.to_string();
+                    if self.loops.last().map_or(false, |inner| inner.as_deref() != Some(name.as_str())) { self.call("break_outer"); }
+                }
+                self.toks.push(Tok::Brk);
+            }
             Expr::Continue(_) => self.toks.push(Tok::Cont),
             Expr::Assign(a) => { self.expr(&a.right); self.expr(&a.left); if matches!(&*a.left, Expr::Unary(_)) { self.call("assign_deref"); } }
             Expr::Binary(b) => { self.expr(&b.left); self.expr(&b.right); }
@@ -319,11 +334,11 @@ const FUNCS: &[(&str, &str, &str, &str)] = &[
 
 pub fn gen(ctx: &mut Ctx) -> Result<String, String> {
     let mut defs = String::new();
-    let mut syms: BTreeSet<String> = BTreeSet::new();
+    let mut syms: BTreeSet<String> = ALWAYS_SYMS.iter().map(|s| s.to_string()).collect();
     for (file, owner, name, outer) in FUNCS {
         let f = ctx.file(file)?.clone();
         let fr = if outer.is_empty() { find_fn(&f, owner, name)? } else { find_nested_fn(&f, owner, outer, name)? };
-        let mut sk = Sk { toks: vec![], next_guard: 0, scopes: vec![], temps: vec![], syms: BTreeSet::new() };
+        let mut sk = Sk { toks: vec![], next_guard: 0, scopes: vec![], temps: vec![], syms: BTreeSet::new(), loops: vec![] };
         sk.block(fr.block);
         let modname = file.trim_start_matches("src/").trim_end_matches(".rs").replace(['/', '.'], "_");
         let own = owner.replace(" for ", "_for_").replace(' ', "_");
